@@ -9,6 +9,7 @@
   much in the running program is measured by the hostile-peer runs.
 -/
 import Amqp.FrameHeader
+import Theorems.PendingDetach
 import Amqp.Gen.Panics
 import Theorems.C12
 import Theorems.C13
